@@ -90,11 +90,33 @@ def run_checks(patch):
     return {'fired': fired}
 
 
+def rebased(patch):
+    """a version of the patch that applies to /repo's HEAD (3-way merge in a scratch worktree when the context moved)"""
+    rc, out = sh(['git', '-C', REPO, 'apply', '--check', os.path.abspath(patch)])
+    if rc == 0:
+        return patch, False
+    wt = tempfile.mkdtemp(prefix='raqote-rebase-')
+    os.rmdir(wt)
+    sh(['git', '-C', REPO, 'worktree', 'add', '-q', '--detach', wt, 'HEAD'])
+    try:
+        rc, out = sh(['git', 'apply', '--3way', os.path.abspath(patch)], cwd=wt)
+        if rc != 0:
+            return patch, False
+        sh(['git', 'reset', '-q'], cwd=wt)
+        rc, diff = sh(['git', 'diff'], cwd=wt)
+        fd, newp = tempfile.mkstemp(prefix='raqote-rebased-', suffix='.diff')
+        os.write(fd, diff.encode())
+        os.close(fd)
+        return newp, True
+    finally:
+        sh(['git', '-C', REPO, 'worktree', 'remove', '--force', wt])
+
+
 def main():
     args = [a for a in sys.argv[1:] if not a.startswith('--')]
-    patch = args[0]
+    patch, was_rebased = rebased(args[0])
     demo = args[1] if len(args) > 1 else None
-    res = {'patch': patch}
+    res = {'patch': patch, 'rebased': was_rebased}
     if '--no-confirm' not in sys.argv:
         res['confirm'] = confirm(patch, demo)
     res.update(run_checks(patch))
